@@ -167,7 +167,7 @@ func (P *Program) genVCWith(key string, known map[string]Finding) (*gen, error) 
 		g = &gen{P: P, fn: fn, fs: fs, c: newSmtCtx(fs.Strings), key: key, name: shortKey(key),
 			oblNames: map[string]int{}, allVars: allVars, loopMods: loopMods, loopModsN: map[string]map[string]bool{},
 			deferIdx: map[*ssa.Defer]int{}, counters: map[string]int{}, used: map[string]bool{}, snapNames: map[string]bool{},
-			loopInfos: map[*ssa.Function]*loopInfo{}, localCell: map[string]string{}, lockSiteOrd: map[interface{}]int{}, rangeIters: map[*ssa.Range]int{}, iterFacts: map[int][3]string{}}
+			loopInfos: map[*ssa.Function]*loopInfo{}, localCell: map[string]string{}, fieldRefs: map[string]*fieldAccess{}, lockSiteOrd: map[interface{}]int{}, rangeIters: map[*ssa.Range]int{}, iterFacts: map[int][3]string{}}
 		g.known = known
 		g.run()
 		stable := !g.newVars
@@ -292,6 +292,7 @@ func (g *gen) run() {
 	}
 	exits := g.execFunc(fr, g.entry, st)
 	for _, ex := range exits {
+		g.checkExitLocal(fr, ex)
 		g.checkExit(ex.n, ex.st, ex.results, false)
 	}
 	// panic exit
@@ -413,6 +414,9 @@ func (g *gen) checkExit(n *node, st *State, results []Val, panicking bool) {
 			g.addObl(n, "canary", "canary:neg:"+c.Label, "negation of "+c.Src, c.Where, not(t), false)
 		}
 	}
+	if panicking && fs.NoPanic {
+		g.addObl(n, "nopanic", "nopanic", "the function is declared nopanic but a call in it may panic", fs.File, "false", false)
+	}
 	// locks: everything acquired here has been released
 	h := g.svGet(st, "$held", "(Array Ref Int)")
 	h0 := g.svGet(old, "$held", "(Array Ref Int)")
@@ -449,6 +453,22 @@ func (g *gen) checkFrame(n *node, st, old *State) {
 			}
 			continue
 		}
+		if ml.All == "pointee" {
+			ref, elem, fa, err := g.pointeeTarget(e, ml.E)
+			if err != nil {
+				continue
+			}
+			if fa != nil {
+				listed[fieldMapName(fa.structT, fa.field.Name())] = append(listed[fieldMapName(fa.structT, fa.field.Name())], fa.base)
+				continue
+			}
+			var lms []leafMap
+			g.leafMaps(elem, nil, &lms)
+			for _, lm := range lms {
+				listed[lm.name] = append(listed[lm.name], refPath(ref, lm.path))
+			}
+			continue
+		}
 		if ml.All != "" {
 			parts := strings.SplitN(ml.All, "::", 2)
 			xt, err := g.resolveType(&TypeExpr{Kind: "name", Name: strings.TrimSpace(parts[0])}, fs.PkgPath, fs.Imports)
@@ -470,6 +490,12 @@ func (g *gen) checkFrame(n *node, st, old *State) {
 				}
 			}
 		case *ESel:
+			if ref, et, ok := e.trAddr(x.X); ok {
+				if name, _, ok := g.fieldVar(et, x.Sel); ok {
+					listed[name] = append(listed[name], ref)
+				}
+				continue
+			}
 			base, bxt, err := e.tr(x.X)
 			if err != nil {
 				continue
@@ -605,4 +631,25 @@ func (P *Program) checkTypeInvAllocs() []string {
 	}
 	sort.Strings(errs)
 	return errs
+}
+
+// checkExitLocal: ensures_local clauses, evaluated with the function's locals in scope.
+func (g *gen) checkExitLocal(fr *frame, ex exitRec) {
+	if len(g.fs.EnsuresLocal) == 0 || ex.block == nil {
+		return
+	}
+	e := g.topEnv(ex.st, &State{m: map[string]string{}}, ex.results)
+	for k, v := range g.localEnvAt(fr, ex.block, ex.idx, ex.st) {
+		if _, bound := e.vars[k]; !bound {
+			e.vars[k] = v
+		}
+	}
+	for _, c := range g.fs.EnsuresLocal {
+		t, err := e.trBool(c.E)
+		if err != nil {
+			g.errorf("%s: ensures_local [%s]: %v", g.name, c.Label, err)
+			continue
+		}
+		g.addObl(ex.n, "ensures", "ensures_local:"+c.Label, c.Src, c.Where, t, false)
+	}
 }
